@@ -61,6 +61,8 @@ class OvldModel(e2.Model):
         if live:
             for c in range(len(self.sigma)):
                 yield ("call", c)
+            if not hist or hist[-1][0] != "badreg":
+                yield ("badreg", 0)  # a registration the library must refuse: nothing may change
 
     def new(self):
         return gen.Program(self.classes, self.pool, register=False, annotate=self.annotate)
@@ -72,6 +74,12 @@ class OvldModel(e2.Model):
         if op[0] == "unreg":
             p.ov.unregister(p.fns[op[1]])
             return ("ok",)
+        if op[0] == "badreg":
+            try:
+                p.ov.register(_unsupported)
+            except TypeError:
+                return ("refused",)
+            return ("accepted",)
         return norm(p.call(*self.sigma[op[1]]))
 
     def build(self, hist):
@@ -104,8 +112,15 @@ class OvldModel(e2.Model):
             exp = self.expected(self.survivors(hist), op[1])
             if out != exp:
                 yield (f"stale:{exp[0]}->{out[0]}", {"fresh_build": exp, "after_history": out})
+        elif op[0] == "badreg":
+            if out != ("refused",):
+                yield ("unsupported-method-not-refused", {"out": out})
         elif out != ("ok",):
             yield ("mutation-raised", {"out": out})
+
+
+def _unsupported(x, **kwargs):
+    return "unsupported"
 
 
 class MapModel(e2.Model):
@@ -204,8 +219,8 @@ def pools(tier):
         cfg = [("o1:Ovld,1pos,n<=2,k=3,prio", "ovld", H(1, 2), ["x"], (0, 1), 3, ("plain",), 4),
                ("o1c:Ovld,1pos,n<=1,k=3,call_next", "ovld", H(1, 1), ["x"], (0, 1), 3, ("cn",), 3),
                ("o2:Ovld,2pos,n=1,k=3", "ovld", H(1, 1), ["xy"], (0,), 3, ("plain",), 3),
-               ("o3:Ovld,mixed shapes (optional positional / keyword come and go),n=1,k=3", "ovld", H(1, 1), ["x", "xy", "x*k?", "x?"], (0,), 3, ("plain",), 4),
-               ("t1:table,1pos,n<=2,k=3,prio", "map", H(1, 2), ["x"], (0, 1), 3, ("plain",), 4),
+               ("o3:Ovld,mixed shapes (optional positional / keyword come and go),n=1,k=3", "ovld", H(1, 1), ["x", "xy", "x*k?"], (0,), 3, ("plain",), 3),
+               ("t1:table,1pos,n<=2,k=3,prio", "map", H(1, 2), ["x"], (0, 1), 3, ("plain",), 3),
                ("t2:table,2pos,n=1,k=3", "map", H(1, 1), ["xy"], (0,), 3, ("plain",), 4)]
     else:
         cfg = [("O1:Ovld,1pos,n<=3,k=3,prio", "ovld", H(1, 3), ["x"], (0, 1), 3, ("plain", "cn"), 6),
@@ -253,7 +268,7 @@ def run_pool(acc, space, kind, h, descs, body, depth):
         case = dict(casebase, history=[list(o) for o in hist], op=list(op))
         acc.violation(case, disc, {k: (list(v[:2]) if isinstance(v, tuple) else v) for k, v in detail.items()})
 
-    st = e2.bfs(model, depth, acc, on_violation=on_violation, merge_every=4)
+    st = e2.bfs(model, depth, acc, on_violation=on_violation, merge_every=8)
     acc.count("programs")
     acc.count("nontrivial", st["states"])
     acc.h("programs_per_space", space)
